@@ -387,6 +387,31 @@ impl TransformErrorWrapper {
     }
 }
 
+/// Indents the continuation lines of an entry that spans several lines (a nested array).
+/// A line break inside a string literal is part of the string and is left as it is.
+fn indent_continuation_lines(text: &str) -> String {
+    let mut indented = String::with_capacity(text.len());
+    let mut in_string = false;
+    let mut escaped = false;
+    for c in text.chars() {
+        indented.push(c);
+        if in_string {
+            if escaped {
+                escaped = false;
+            } else if c == '\\' {
+                escaped = true;
+            } else if c == '"' {
+                in_string = false;
+            }
+        } else if c == '"' {
+            in_string = true;
+        } else if c == '\n' {
+            indented.push_str("    ");
+        }
+    }
+    indented
+}
+
 impl fmt::Display for PreModel {
     fn fmt(&self, f: &mut fmt::Formatter<'_>) -> fmt::Result {
         let mut s = self.objective.to_string();
@@ -397,22 +422,14 @@ impl fmt::Display for PreModel {
         if !self.constants.is_empty() {
             s.push_str("where\n");
             for constant in &self.constants {
-                let constant = constant
-                    .to_string()
-                    .split("\n")
-                    .collect::<Vec<_>>()
-                    .join("\n    ");
+                let constant = indent_continuation_lines(&constant.to_string());
                 s.push_str(&format!("    {}\n", constant));
             }
         }
         if !self.domains.is_empty() {
             s.push_str("define\n");
             for domain in &self.domains {
-                let domain = domain
-                    .to_string()
-                    .split("\n")
-                    .collect::<Vec<_>>()
-                    .join("\n    ");
+                let domain = indent_continuation_lines(&domain.to_string());
                 s.push_str(&format!("    {}\n", domain));
             }
         }
